@@ -38,8 +38,32 @@ package tagstree
 //@   site call os.OpenFile #1:
 //@     assert [opened-only-for-a-validated-key] uf("safeName", bool, tagKey) && (arg1 & (os.O_WRONLY | os.O_RDWR | os.O_CREATE | os.O_TRUNC)) == 0
 //@   loop 1:
-//@     invariant [whole-entries-so-far] len(rbuf) % 16 == 0 && len(newArr) == 16
-//@   ensures [the-metadata-table-is-a-whole-number-of-16-byte-entries] implies(result1 == nil, result0 != nil && len(result0.metadataBuf) % 16 == 0)
+//@     invariant [whole-entries-so-far] len(rbuf) % 16 == 0 && len(newArr) == 16 && len(rbuf) <= 4294967016
+//@   site callret fd.ReadAt #2:
+//@     assume implies(err == nil, len(rbuf) <= 4294967000)
+//@   note UNCHECKED site assumption (environment): a tags tree file is smaller than 4 GiB, so a 16-byte read at an offset beyond that fails and the table stays below 4 GiB (the decoders keep 32-bit cursors)
+//@   ensures [the-metadata-table-is-a-whole-number-of-16-byte-entries] implies(result1 == nil, result0 != nil && len(result0.metadataBuf) % 16 == 0 && len(result0.metadataBuf) <= 4294967295 && result0.fd != nil)
+//@   ensures [the-readers-registered-so-far-keep-their-shape-and-the-new-one-has-it] forallkey(s, string, implies(old(ttShapeAt(attr.tagTrees, s)), ttShapeAt(attr.tagTrees, s)))
+//@ end
+// the shape every registered reader has: an open file and a table of whole entries
+//@ spec ttShapeAt(m map[string]*TagTreeReader, s string) bool = implies(haskey(m, s), m[s] != nil && m[s].fd != nil && len(m[s].metadataBuf) % 16 == 0 && len(m[s].metadataBuf) <= 4294967295)
+//@ spec ttShape(m map[string]*TagTreeReader) bool = forallkey(s, string, ttShapeAt(m, s))
+// the look-up wrappers: a reader taken from the map, or one just built, is
+// handed to its decoder with the decoder's precondition PROVED (it was an
+// unchecked assumption before); that the map holds only readers of that shape
+// is the wrappers' own precondition (the map is written by initTagsTreeReader
+// only, whose postcondition keeps it)
+//@ func (*AllTagTreeReaders).getOrInsertMatchingTSIDs
+//@   props C18
+//@   requires attr != nil && ttShape(attr.tagTrees)
+//@ end
+//@ func (*AllTagTreeReaders).getValueIteratorForMetric
+//@   props C18
+//@   requires attr != nil && ttShape(attr.tagTrees)
+//@ end
+//@ func (*AllTagTreeReaders).readTagValuesOnly
+//@   props C18
+//@   requires attr != nil && ttShape(attr.tagTrees) && rawTagValues != nil
 //@ end
 
 // C18 (arbitrary bytes fed to an on-disk decoder never crash the server): the
